@@ -38,6 +38,7 @@ def Ty.wf (tbl : ClassTable) : Ty → Bool
   | .union ts => Ty.wfL tbl ts
   | .subclass c => decide (c < tbl.size) && !tbl.isProtocol c
   | .annotated t => Ty.wf tbl t
+  | .tvar _ => false
 def Ty.wfL (tbl : ClassTable) : List Ty → Bool
   | [] => true
   | t :: ts => Ty.wf tbl t && Ty.wfL tbl ts
